@@ -22,6 +22,7 @@ pub fn meta(m: &mut PropMeta) {
     m.quick_bound = "soups <= 2 tokens x 10 contexts, <= 3 tokens x 2 contexts; 1-deviation mutations; growth families up to 8 KiB; option vectors with <= 2 deviations";
     m.thorough_bound = "soups <= 3 tokens x 10 contexts, <= 4 tokens x 2 contexts; 2-character deviations on two bases; complete option product";
     m.quick_cap_s = 100.0;
+    m.thorough_cap_s = 1800.0;
 }
 
 /// One compilation + level update + emission in both formats. Returns (phase class, seconds) or a violation.
@@ -622,6 +623,63 @@ impl Family for GrowthThroughBinary {
     }
 }
 
+
+// ---------------------------------------------------------------------------------------------------------------
+// The cases of other checks, through the real binary with a generator. The request builder lives in the binary and
+// runs only for programs the validators accept: what it takes for granted (values fit, modules exist, attributes are
+// known) is exactly what the rule-boundary cases of C04 vary.
+
+pub struct FilesThroughBinary {
+    pub inner: Box<dyn Family>,
+    pub stride: u64,
+}
+impl Family for FilesThroughBinary {
+    fn name(&self) -> String {
+        format!("cases-through-the-binary/compiled by the real binary with a capturing generator (request encoding), verdict only{}: {}", if self.stride > 1 { format!(", every {}th case", self.stride) } else { String::new() }, self.inner.name())
+    }
+    fn len(&self) -> u64 {
+        (self.inner.len() + self.stride - 1) / self.stride
+    }
+    fn hang_secs(&self) -> f64 {
+        60.0
+    }
+    fn describe(&self, idx: u64) -> Value {
+        self.inner.describe(idx * self.stride)
+    }
+    fn run(&self, idx: u64) -> CaseOut {
+        let d = self.inner.describe(idx * self.stride);
+        let mut out = CaseOut::new(hash_str(&format!("ftb/{}/{idx}", self.inner.name())));
+        let files: Vec<String> = d["files"].as_array().map(|a| a.iter().filter_map(|x| x.as_str().map(|s| s.to_string())).collect()).unwrap_or_default();
+        if files.is_empty() {
+            out.class = "no-files".into();
+            return out;
+        }
+        out.nontrivial = true;
+        let mut sc = Scenario::default();
+        for (i, f) in files.iter().enumerate() {
+            sc.tree.push((format!("f{i}.slice"), crate::proc::Node::File(f.clone().into_bytes())));
+            sc.argv.push(format!("f{i}.slice"));
+        }
+        sc.gens.push(Gen { name: "gen".into(), install: Install::Script(Script(vec![Step::ReadAll, Step::Stdout(encode_reply(&[], &[])), Step::Exit(0)])) });
+        sc.argv.push("-G".into());
+        sc.argv.push("{gen0}".into());
+        let obs = run(&sc, Duration::from_secs(20));
+        let fam = self.inner.name().split('/').next().unwrap_or("").to_string();
+        let desc = || format!("files: {files:?}\nexit {:?} signal {:?} timed_out {}\nstderr {}", obs.exit_code, obs.signal, obs.timed_out, truncate(&show_bytes(&obs.stderr), 600));
+        if obs.timed_out {
+            out.violate(format!("c01/cases-through-the-binary/{fam}/no-verdict-within-20s"), desc());
+        } else if let Some(loc) = obs.panic_location() {
+            out.violate(format!("c01/cases-through-the-binary/{fam}/panic@{loc}"), desc());
+        } else if let Some(sig) = obs.signal {
+            out.violate(format!("c01/cases-through-the-binary/{fam}/signal-{sig}"), desc());
+        } else if !matches!(obs.exit_code, Some(0) | Some(1)) {
+            out.violate(format!("c01/cases-through-the-binary/{fam}/exit-status-{:?}", obs.exit_code), desc());
+        }
+        out.class = format!("{fam}:exit{:?}", obs.exit_code);
+        out
+    }
+}
+
 // ---------------------------------------------------------------------------------------------------------------
 // Every kind of white space (and a few look-alikes) at every position of texts that exercise all three lexers
 
@@ -1174,6 +1232,25 @@ pub fn families(tier: &str) -> Vec<Box<dyn Family>> {
         v.push(Box::new(Sanitized::all(Box::new(TokenMutations::new()))));
         v.push(Box::new(Sanitized::all(Box::new(CharMutations::new(false)))));
         v.push(Box::new(Sanitized::all(Box::new(TokenSoups::new(2, 0..10)))));
+    }
+    // C04's rule-boundary cases (and, thorough, C02's programs and C16's comments) through the binary with a generator
+    for (i, f) in super::c04::families("quick").into_iter().enumerate() {
+        // quick: names, literals, enum boundaries, dictionary keys in full, about 1000 evenly spaced cases of each
+        // larger family; thorough: up to 8000 of each
+        let n = f.len();
+        let stride = if quick && matches!(i, 0 | 2 | 3 | 4) { 1 } else { (n / if quick { 1000 } else { 8000 }).max(1) };
+        v.push(Box::new(FilesThroughBinary { inner: f, stride }));
+    }
+    for (i, f) in super::c16::families("quick").into_iter().enumerate() {
+        // doc comments are part of the request: quick = the malformed catalogue and the link targets
+        if !quick || i < 2 {
+            v.push(Box::new(FilesThroughBinary { inner: f, stride: if i < 2 { 1 } else { 4 } }));
+        }
+    }
+    if !quick {
+        for f in super::c02::families("quick") {
+            v.push(Box::new(FilesThroughBinary { inner: f, stride: 4 }));
+        }
     }
     // C05's graph families: quick = aliases (also with two-armed wrappers), inheritance, the 10-node graphs and all
     // 2-node containment graphs
